@@ -154,6 +154,7 @@ template<size_t N> static void array_test(Enumerator &E) {
 			frg::array<int, N> c = a; using std::swap; swap(b, c);
 			EXPECT(b == a && c[N - 1] == a[N - 1] + 1, "C18", "array:swap", "swap wrong");
 			EXPECT(frg::get<0>(a) == s[0] && frg::get<N - 1>(ca) == s[N - 1], "C18", "array:get", "get<I> wrong");
+			{ int &&r = frg::get<0>(std::move(a)); const int &&cr = frg::get<N - 1>(std::move(ca)); EXPECT(&r == &a[0] && &cr == &ca[N - 1] && ca.data() == &a[0], "C18", "array:get", "get<I> of an rvalue / const data() designate other elements"); }
 			auto cc = frg::array_concat<int>(a, b, frg::array<int, 2>{41, 42});
 			static_assert(std::tuple_size_v<decltype(cc)> == 2 * N + 2);
 			for(size_t k = 0; k < N; k++) EXPECT(cc[k] == a[k] && cc[N + k] == b[k], "C18", "array:concat", "array_concat order wrong");
